@@ -284,6 +284,13 @@ def discover():
                     names.append(f"{rel}.{n}")
                 elif n.startswith("create_") and _ret_is_envelope(f):
                     names.append(f"{rel}.{n}")
+                elif _ret_is_envelope(f) and n != "parse_message":
+                    names.append(f"{rel}.{n}")  # e.g. handle_roots_list_request: builds the answer to a server request
+            elif inspect.isclass(f) and f.__module__ == mod.__name__ and f.__name__ not in ENVELOPES and not f.__name__.startswith("_"):
+                holds_stream = "write_stream" in inspect.signature(f.__init__).parameters if "__init__" in vars(f) else False
+                for mn, mf in sorted(vars(f).items()):
+                    if inspect.isfunction(mf) and not mn.startswith("_") and (holds_stream or _ret_is_envelope(mf)):
+                        names.append(f"{rel}.{f.__name__}.{mn}")
             elif inspect.isclass(f) and f.__module__ == mod.__name__ and f.__name__ in ENVELOPES:
                 for mn, mf in sorted(vars(f).items()):
                     if mn.startswith("create_") and isinstance(mf, (classmethod, staticmethod)):
@@ -481,8 +488,8 @@ def _registry(a):
         "arguments": _obj(a.get("payload")) if a.get("payload") is not None else {},
         "ref": {"type": "ref/prompt", "name": txt}, "argument": {"name": "arg", "value": txt},
         "messages": [{"role": "user", "content": {"type": "text", "text": txt}}], "max_tokens": 7,
-        "metadata": _obj(a.get("payload")), "model_preferences": None, "system_prompt": txt if a.get("opt") else None,
-        "include_context": None, "temperature": 0.5 if a.get("opt") else None, "stop_sequences": [txt] if a.get("opt") else None,
+        "metadata": _obj(a.get("payload")), "model_preferences": {"hints": [{"name": txt}], "costPriority": 0} if a.get("opt") else None, "system_prompt": txt if a.get("opt") else None,
+        "include_context": "thisServer" if a.get("opt") else None, "temperature": 0.5 if a.get("opt") else None, "stop_sequences": [txt] if a.get("opt") else None,
         "supported_versions": None, "preferred_version": None, "client": None,
         "request_id": idval(a.get("id")) if a.get("id") is not None else "r1", "reason": txt if a.get("opt") else None,
         "progress_token": idval(a.get("id")) if a.get("id") is not None else "t1", "progress": 0.5,
@@ -497,6 +504,8 @@ def helper_driver(f):
 
     def drive(a):
         reg = _registry(a)
+        if a.get("badtype"):  # the helpers that validate their arguments raise before anything is written
+            reg = dict(reg, **{a["badtype"]: 5 if a["badtype"] == "name" else ["not", "a", "dict"]})
         kwargs, missing = {}, []
         for pn, p in sig.parameters.items():
             if pn in ("read_stream", "write_stream"):
@@ -521,6 +530,21 @@ def helper_driver(f):
 
 class UnknownEmitter(Exception):
     pass
+
+
+def d_roots_answer(a):
+    """handle_roots_list_request / RootsManager: driven by the extension harness (rpc_ext.run_roots)"""
+    from . import rpc_ext
+
+    o = rpc_ext.run_roots(a)
+    raise _Observed(o)
+
+
+class _Observed(Exception):
+    """a driver that already produced the full observation"""
+
+    def __init__(self, o):
+        self.o = o
 
 
 def d_seq_shared_params(a):
@@ -1265,6 +1289,12 @@ def drivers():
         "json_rpc_message.JSONRPCMessage.to_specific_type": ("convert", d_to_specific_type),
         "json_rpc_message.JSONRPCMessage.from_specific_type": ("convert", d_from_specific_type),
         "json_rpc_message.JSONRPCMessageWrapper": ("convert", d_wrapper),
+        "roots.send_messages.handle_roots_list_request": ("answer", d_roots_answer),
+        "roots.send_messages.RootsManager.handle_list_request": ("answer", d_roots_answer),
+        "roots.send_messages.RootsManager.add_root": ("answer", d_roots_answer),
+        "roots.send_messages.RootsManager.remove_root": ("answer", d_roots_answer),
+        "roots.send_messages.RootsManager.clear": ("answer", d_roots_answer),
+        "roots.send_messages.RootsManager.get_roots": ("answer", d_roots_answer),
         "seq:shared-params": ("seq", d_seq_shared_params),
         "seq:handler-reuse": ("seq", d_seq_handler_reuse),
         "seq:batch-reuse": ("seq", d_seq_batch_reuse),
@@ -1313,6 +1343,8 @@ def run_case(case):
     _, fn = ent
     try:
         r = fn(case.get("args") or {})
+    except _Observed as ob:
+        return ob.o
     except UnknownEmitter as ex:
         return {"unknown": True, "why": str(ex), "raised": None, "emitted": []}
     except SkippedLiteral as ex:
